@@ -4,3 +4,4 @@
 //! behaviours, or a seed) and prints ndjson observations that the python check compares / hands to TLC.
 pub mod fixture;
 pub mod util;
+pub mod poolfix;
